@@ -351,7 +351,9 @@ namespace nmtools::utils
                     constexpr auto N = meta::fixed_index_array_size_v<T>;
                     using t_t = meta::get_element_or_common_type_t<T>;
                     using u_t = meta::get_element_or_common_type_t<U>;
-                    using common_t = meta::promote_index_t<t_t,u_t>;
+                    // compare in the common type of the two element types (promote_index_t picks a signed operand type
+                    // whatever its width: int8 against int narrowed 257 to 1)
+                    using common_t = meta::common_type_t<t_t,u_t>;
                     meta::template_for<N>([&](auto i){
                         equal = equal && ((common_t)at(t,i) == (common_t)at(u,i));
                     });
@@ -364,7 +366,7 @@ namespace nmtools::utils
                     meta::template_for<N>([&](auto i){
                         auto t_i = at(t,i);
                         auto u_i = at(u,i);
-                        using common_t = meta::promote_index_t<t_t,u_t>;
+                        using common_t = meta::common_type_t<t_t,u_t>;
                         equal = equal && (static_cast<common_t>(t_i) == static_cast<common_t>(u_i));
                     });
                     return equal;
@@ -375,7 +377,7 @@ namespace nmtools::utils
                     for (size_t i=0; i<len(t); i++) {
                         auto t_i = at(t,i);
                         auto u_i = at(u,i);
-                        using idx_t = meta::promote_index_t<t_t,u_t>;
+                        using idx_t = meta::common_type_t<t_t,u_t>;
                         equal = equal && ((idx_t)t_i == (idx_t)u_i);
                     }
                     return equal;
@@ -429,7 +431,7 @@ namespace nmtools::utils
                 }
                 using t_t = meta::get_element_or_common_type_t<T>;
                 using u_t = meta::get_element_or_common_type_t<U>;
-                using common_t = meta::promote_index_t<t_t,u_t>;
+                using common_t = meta::common_type_t<t_t,u_t>;
                 for (size_t i=0; i<t_indices.size(); i++)
                     equal = equal && ((common_t)apply_at(t, t_indices[i]) == (common_t)apply_at(u, u_indices[i]));
                 return equal;
